@@ -29,7 +29,8 @@ def make_case(g, r, max_base=3, max_var=3, spins=False):
         hyper = 0.15 if explicit else 0.0
         base = g.term(targets, hyper_prob=hyper,
                       kinds=r.choice(["AAMSNVfD", "VVfMM", "AAVf", "MMVD",
-                                      "ASNV"]))
+                                      "ASNV", "aN", "asN", "aaNV", "sNN",
+                                      "aAN"]))
         terms.append(base)
         rep = len(terms)
         cls.append((rep, {}))
